@@ -151,6 +151,11 @@ def gen_literals(tier, rng):
     for v in h32:
         out.append(("radix", "&H%X" % v, {"bits": bits_of("%X" % v, 16)}))
         out.append(("radix", "&O%o" % v, {"bits": bits_of("%o" % v, 8)}))
+    # many leading zeros in hex / octal literals, 16- and 32-bit values: the written value decides, not the number of digits
+    for v in [0, 7, 0x7fff, 0x8000, 0xffff, 0x10000, 0x7fffffff, 0x80000000, 0xffffffff] + [rng.randint(0, 0xffffffff) for _ in range(30)]:
+        for lead in (3, 6, 9, 12, 20):
+            out.append(("radix", "&H" + "0" * lead + "%X" % v, {"bits": bits_of("0" * lead + "%X" % v, 16)}))
+            out.append(("radix", "&O" + "0" * lead + "%o" % v, {"bits": bits_of("0" * lead + "%o" % v, 8)}))
     # a unary minus directly in front of a hex / octal literal (type minima widen, the value is exact)
     nv = [0, 1, 0x7fff, 0x8000, 0x8001, 0xffff, 0x10000, 0x7fffffff, 0x80000000, 0x80000001, 0xffff0000, 0xffffffff, 0xfffffffe, 0xffff8000, 0xffff7fff]
     nv += [rng.randint(0, 65535) for _ in range(300)] + [rng.randint(65536, 0xffffffff) for _ in range(300)]
